@@ -50,8 +50,13 @@ async fn ttl_async(ctx: &mut Ctx) {
     let np = 1 + ctx.tape.choose(3) as usize;
     let session_timeout_ms = *ctx.tape.pick(&[2_000u64, 5_000, 30_000, 120_000]);
     let mut w: HWorld<X> = HWorld::new(u64::MAX / 4);
+    let v6 = ctx.tape.choose(5) == 0;
+    if v6 {
+        ctx.count("ipv6_runs");
+    }
     for i in 0..=np {
         let mut c = NodeCfg::new(8 + i);
+        c.v6 = v6;
         c.request_timeout_ms = 500;
         if i == 0 {
             c.session_timeout_ms = session_timeout_ms;
@@ -186,8 +191,16 @@ async fn ttl_async(ctx: &mut Ctx) {
                         w.schedule(0, Ev::Custom(X::AppWhoAreYou { node, wref, enr }));
                     }
                     HandlerOut::Request(from, req) => {
+                        // the victim's application is sometimes slow: it answers around (often after) the
+                        // moment the session the request came in on has expired
+                        let delay = if node == 0 && ctx.tape.choose(5) == 0 {
+                            ctx.fault("slow_application_response");
+                            *ctx.tape.pick(&[session_timeout_ms / 2, session_timeout_ms.saturating_sub(300), session_timeout_ms + 300, session_timeout_ms * 2])
+                        } else {
+                            0
+                        };
                         for resp in w.default_response(node, &from, &req, 1) {
-                            w.schedule(0, Ev::Custom(X::AppRespond { node, to: from.clone(), resp }));
+                            w.schedule(delay, Ev::Custom(X::AppRespond { node, to: from.clone(), resp }));
                         }
                     }
                     HandlerOut::Response(from, r) => ctx.ev(format!("t={t} n{node} out Response r{} from {}", rid_num(&r.id), short_id(&from.node_id))),
